@@ -1,0 +1,80 @@
+//! Hook points used by `tcp_forwarder` when the `verif_hooks` feature is on:
+//! a scripted resolver and an observer of outbound TCP connection attempts.
+
+use once_cell::sync::Lazy;
+use std::collections::HashMap;
+use std::io;
+use std::net::SocketAddr;
+use std::sync::Mutex;
+
+#[derive(Default)]
+struct State {
+    /// "host:port" -> successive answers (the last one repeats)
+    scripts: HashMap<String, Vec<Vec<SocketAddr>>>,
+    lookups: HashMap<String, usize>,
+    /// every address handed to `TcpStream::connect`
+    connects: Vec<SocketAddr>,
+    /// refuse the real connect for these addresses with ECONNREFUSED (keeps runs hermetic)
+    refuse_real_connect: bool,
+}
+
+static STATE: Lazy<Mutex<State>> = Lazy::new(Default::default);
+
+pub fn script_lookup(host_port: &str, answers: Vec<Vec<SocketAddr>>) {
+    STATE
+        .lock()
+        .unwrap()
+        .scripts
+        .insert(host_port.to_string(), answers);
+}
+
+pub fn lookup_count(host_port: &str) -> usize {
+    STATE
+        .lock()
+        .unwrap()
+        .lookups
+        .get(host_port)
+        .copied()
+        .unwrap_or(0)
+}
+
+pub fn take_connects() -> Vec<SocketAddr> {
+    std::mem::take(&mut STATE.lock().unwrap().connects)
+}
+
+pub fn set_refuse_real_connect(x: bool) {
+    STATE.lock().unwrap().refuse_real_connect = x;
+}
+
+pub(crate) async fn lookup_host(host_port: String) -> io::Result<std::vec::IntoIter<SocketAddr>> {
+    let scripted = {
+        let mut st = STATE.lock().unwrap();
+        let n = {
+            let c = st.lookups.entry(host_port.clone()).or_insert(0);
+            *c += 1;
+            *c
+        };
+        st.scripts.get(&host_port).map(|answers| {
+            answers
+                .get(n - 1)
+                .or_else(|| answers.last())
+                .cloned()
+                .unwrap_or_default()
+        })
+    };
+    match scripted {
+        Some(x) => Ok(x.into_iter()),
+        None => Ok(tokio::net::lookup_host(host_port)
+            .await?
+            .collect::<Vec<_>>()
+            .into_iter()),
+    }
+}
+
+/// Called with the address about to be connected. `Some(e)` = do not connect, fail with `e`.
+pub(crate) fn observe_connect(peer: &SocketAddr) -> Option<io::Error> {
+    let mut st = STATE.lock().unwrap();
+    st.connects.push(*peer);
+    st.refuse_real_connect
+        .then(|| io::Error::from_raw_os_error(libc::ECONNREFUSED))
+}
